@@ -434,10 +434,10 @@ func p4Resize(r *Run, rep *core.Report, prop string, mm *core.MapModel) {
 						ctx.Report(in, "P4", "the published table is not the fresh table built by this resize: "+fi.Why)
 					}
 				}
-				if a.Owner == mm.Name && a.Field == mm.FlagF && op == "Store" {
+				if mm.IsFlag(a) && op == "Store" {
 					s.Cleared = true
 				}
-				if a.Owner == mm.Name && a.Field == mm.FlagF && op == "CAS" {
+				if mm.IsFlag(a) && op == "CAS" {
 					s.Published, s.Cleared = false, false
 				}
 				return []rzOrd{s}
@@ -493,15 +493,9 @@ func p4Resize(r *Run, rep *core.Report, prop string, mm *core.MapModel) {
 	// the resize owner works on the table that is current once it owns the flag: the source of every copy and the
 	// length the new table is sized from come from an atomic load of the table pointer executed after the winning CAS
 	var cas ssa.Instruction
-	core.Instrs(f, func(in ssa.Instruction) {
-		if c, ok := in.(*ssa.Call); ok {
-			if op, addr, ok := core.AtomicOp(c); ok && op == "CAS" {
-				if a := core.Addr(addr); a.Owner == mm.Name && a.Field == mm.FlagF {
-					cas = in
-				}
-			}
-		}
-	})
+	if cv := flagCASIn(mm, f); cv != nil {
+		cas = cv.(ssa.Instruction)
+	}
 	if cas != nil {
 		srcOK := func(v ssa.Value, at ssa.Instruction, what string) {
 			roots := map[ssa.Value]string{}
